@@ -73,6 +73,11 @@ def base_packets():
     P.append(hdr(10, 0x8180, 1, 1, 0, 2) + name("q", "ex") + [0, 41, 0, 1] + rr(ptr(12), 1, 30, [7, 7, 7, 7]) + rr(name("g", "ex"), 28, 31, [0] * 10 + [255, 255, 192, 0, 2, 1]) + opt([(10, [9, 9])]))
     # 10: a query whose question name is a pointer to offset 0: the id 0x0161 and the zero flag word spell the name "a."
     P.append([0x01, 0x61, 0x00, 0x00, 0, 1, 0, 0, 0, 0, 0, 1, 0xC0, 0x00, 0, 1, 0, 1] + opt([(10, [1])]))
+    # 11: a literal label followed by a pointer into the header ("www" + pointer to offset 0)
+    P.append([0x01, 0x61, 0x00, 0x00, 0, 1, 0, 0, 0, 0, 0, 1, 3, 119, 119, 119, 0xC0, 0x00, 0, 1, 0, 1] + opt([(10, [1])]))
+    # 12: two pointers inside the header: the question points at offset 3, where the low flag byte 0xc0 and the high
+    # byte of QDCOUNT read as a pointer to offset 0
+    P.append([0x01, 0x61, 0x00, 0xC0, 0, 1, 0, 0, 0, 0, 0, 1, 0xC0, 0x03, 0, 1, 0, 1] + opt([(10, [1])]))
     return P
 
 
@@ -128,6 +133,7 @@ def raw_menu():
         (".", "OPT", "HS", 0x00010000, []),                          # no option, version 1
         (".", "OPT", "ANY", 0, [0, 3, 0, 0, 0, 8, 0, 1, 9]),         # two options
         (".", "OPT", "ANY", 0, [0, 10, 0, 9, 1]),                    # option length overruns the data
+        (".", "OPT", "ANY", 0, [0, 10, 0, 1, 7, 0, 8, 0, 0, 0, 12, 0, 9, 1]),   # two good options, then one that overruns
         (".", "OPT", "ANY", 0, [0, 10, 0]),                          # truncated option header
         ("x.", "OPT", "ANY", 0, []),                                 # OPT not owned by the root
         ("r.a.", "A", "CH", 7, [4, 3, 2, 1]),
@@ -228,7 +234,7 @@ def histories(seed, tier, extra_packets=()):
     out = []
     so, co = simple_ops(), cursor_ops()
     # every single operation on every base packet (and on the two synthesised packets)
-    for b in bases[:11]:
+    for b in bases[:13]:
         for o in so + co:
             out.append(scen(b, [o]))
     for syn in ("empty", "example.com"):
@@ -242,7 +248,7 @@ def histories(seed, tier, extra_packets=()):
               cursor_op("AR", True, 1, [("delete", [])]), cursor_op("AN", False, 0, [("uncompress", [])]), cursor_op("AN", False, 0, [("delete", [])]),
               cursor_op("AR", True, 0, [("set_ttl", [1, 2, 128, 0])]), cursor_op("AR", True, 1, [("set_raw_name", name("a"))])]
     step = 3 if tier == "quick" else 1
-    for bi, b in enumerate(bases[:11]):
+    for bi, b in enumerate(bases[:13]):
         for fi, f in enumerate(firsts):
             seconds = (so + co)[(bi + fi) % step::step]
             if tier == "quick":
@@ -251,11 +257,11 @@ def histories(seed, tier, extra_packets=()):
                 out.append(scen(b, [f, s2]))
     # a question name written through a pointer into the header (base 10): header setters whose new value keeps the
     # name a name, around the question getters that fill the cache
-    hp = bases[10]
-    for setter in ({"op": "set_tid", "v": 0x0162}, {"op": "set_tid", "v": 0x0141}, {"op": "set_tid", "v": 0x0161}):
-        out.append(scen(hp, [{"op": "read_question"}, setter, {"op": "read_question"}]))
-        out.append(scen(hp, [setter, {"op": "read_question"}, {"op": "recompute"}, {"op": "read_question"}]))
-        out.append(scen(hp, [{"op": "read_question"}, setter, op_insert("AR", 0), {"op": "read_question"}]))
+    for hp in bases[10:13]:
+        for setter in ({"op": "set_tid", "v": 0x0162}, {"op": "set_tid", "v": 0x0141}, {"op": "set_tid", "v": 0x0161}):
+            out.append(scen(hp, [{"op": "read_question"}, setter, {"op": "read_question"}]))
+            out.append(scen(hp, [setter, {"op": "read_question"}, {"op": "recompute"}, {"op": "read_question"}]))
+            out.append(scen(hp, [{"op": "read_question"}, setter, op_insert("AR", 0), {"op": "read_question"}]))
     # arguments equal to the current value up to letter case: the question / an owner renamed to its own name in
     # another case, on a pointer-free object whose question cache is filled, then read back raw
     for b, qn, own in ((bases[0], name("Q", "eX"), name("q", "EX")), (bases[1], name("Q", "EX"), name("Q", "Ex"))):
@@ -272,6 +278,13 @@ def histories(seed, tier, extra_packets=()):
     for adv in (254, 255, 256, 257, 299):
         out.append(scen(wide, [cursor_op("AN", False, adv, [("set_raw_name", name("longer", "name", "here")), ("next", []), ("delete", [])]), {"op": "read_question"}]))
         out.append(scen(wide, [cursor_op("AN", False, adv, [("delete", []), ("next", []), ("set_raw_name", name("a"))]), op_insert("AN", 0)]))
+    # an edit that decompresses, then a rename whose output is longer / equal / shorter than its input (the renamer
+    # compresses again), then edits and walks on the result
+    for b in bases[:3] + bases[7:9]:
+        for tgt in (name("a-much-longer-zone-name", "example", "net"), name("xe"), name("e")):
+            ren = {"op": "rename", "target": tgt, "source": name("ex"), "suffix": True}
+            out.append(scen(b, [op_insert("AN", 0), ren, cursor_op("AN", False, 0, [("delete", []), ("next", []), ("delete", [])]), {"op": "read_question"}]))
+            out.append(scen(b, [cursor_op("AN", False, 0, [("uncompress", [])]), ren, cursor_op("AR", True, 0, [("set_raw_name", name("a")), ("next", [])]), op_insert("NS", 1)]))
     # size limit: fill up with big records from every starting size
     big = [i for i, (t, r) in enumerate(record_menu()) if t.startswith("big.")][0]
     for b in bases[:3]:
